@@ -183,7 +183,9 @@ def _argmax_batch_rule(
     axis_size = operand.shape[bdim]
     operand = batching.bdim_at_front(operand, bdim, axis_size)
 
-    shifted_axes = tuple(int(ax) + 1 for ax in axes)
+    # `axes` address one example; negative values count from its last axis.
+    slice_rank = operand.ndim - 1
+    shifted_axes = tuple((int(ax) % slice_rank if slice_rank else 0) + 1 for ax in axes)
     out = JnpArgmaxPlugin._PRIM.bind(
         operand,
         axes=shifted_axes,
